@@ -30,7 +30,7 @@ func init() {
 			"Oracle: the handler rejects every such candidate (an independent scanner confirms each candidate contains a hostile construct); the handler for an unknown property rejects the whole pool; end to end, Policy.Sanitize with default handlers keeps the good values and removes a one-per-position subset of the candidates. " +
 			"non-trivial = distinct (property, candidate) pairs built from a good value of at least two characters.",
 		Assumptions: []string{"'hostile' is decided by the scanner in internal/checks/c18.go: expression(, javascript:, data:, backslash, angle bracket, at-keyword, or a url() whose argument does not start with http: / https:"},
-		QuickBudget:  50, ThoroughBudget: 800,
+		QuickBudget: 50, ThoroughBudget: 800,
 		Run:    runC18,
 		Replay: replayC18,
 	})
